@@ -675,3 +675,42 @@ Proof.
       match goal with |- false = starts_two_quotes (h :: ?X) => destruct X end;
         cbn [starts_two_quotes]; [reflexivity|]. rewrite Hh. reflexivity.
 Qed.
+
+(* ------------------------------------------------------------------------------------ *)
+(* the translated escape table has the conventional meaning                               *)
+(* ------------------------------------------------------------------------------------ *)
+
+Definition tables_agree (a b : list (Z * Z)) : bool :=
+  forallb (fun p : Z * Z => match lookup_esc (fst p) b with Some v => v =? snd p | None => false end) a.
+
+Lemma lookup_esc_in : forall c tbl v, lookup_esc c tbl = Some v -> In (c, v) tbl.
+Proof.
+  induction tbl as [|[k w] tbl IH]; intros v H; cbn [lookup_esc] in H; [discriminate|].
+  destruct (Z.eqb_spec k c) as [->|Hne].
+  - injection H as <-. left. reflexivity.
+  - right. apply IH. assumption.
+Qed.
+
+Lemma tables_agree_lookup : forall a b, tables_agree a b = true -> tables_agree b a = true ->
+  forall c, lookup_esc c a = lookup_esc c b.
+Proof.
+  intros a b Hab Hba c. unfold tables_agree in *. rewrite forallb_forall in Hab, Hba.
+  destruct (lookup_esc c a) as [v|] eqn:Ea.
+  - apply lookup_esc_in in Ea. specialize (Hab _ Ea). cbn [fst snd] in Hab.
+    destruct (lookup_esc c b) as [w|]; [|discriminate]. apply Z.eqb_eq in Hab. congruence.
+  - destruct (lookup_esc c b) as [w|] eqn:Eb; [|reflexivity].
+    apply lookup_esc_in in Eb. specialize (Hba _ Eb). cbn [fst snd] in Hba.
+    rewrite Ea in Hba. discriminate.
+Qed.
+
+Lemma escape_table_standard : forall c, lookup_esc c escaping_chars = lookup_esc c std_escapes.
+Proof. apply tables_agree_lookup; vm_compute; reflexivity. Qed.
+
+Lemma escapes_standard : forall s acc, unescape s acc = spec_unescape s acc.
+Proof.
+  fix IH 1. intros [|c s] acc; [reflexivity|]. cbn [unescape spec_unescape].
+  destruct (c =? 92).
+  - destruct s as [|e s]; [reflexivity|]. rewrite escape_table_standard.
+    destruct (lookup_esc e std_escapes); [apply IH|reflexivity].
+  - apply IH.
+Qed.
